@@ -9,6 +9,7 @@ import Spydr.Verilog.RoundTripText
 import Spydr.Verilog.WFStruct
 import Spydr.Verilog.RoundTripRenderB
 import Spydr.Verilog.RoundTripLexB
+import Spydr.Verilog.RoundTripStruct
 
 #print axioms Spydr.Verilog.getWires_spec
 #print axioms Spydr.Verilog.getWires_spec_single_all
@@ -106,3 +107,9 @@ import Spydr.Verilog.RoundTripLexB
 #print axioms Spydr.Verilog.Elab.run_clean
 #print axioms Spydr.Verilog.Elab.lex_pieces
 #print axioms Spydr.Verilog.Elab.lexV_pieces
+#print axioms Spydr.Verilog.Elab.chars_modP
+#print axioms Spydr.Verilog.Elab.toks_modP
+#print axioms Spydr.Verilog.Elab.chars_fileP
+#print axioms Spydr.Verilog.Elab.lexR_of_pieces
+#print axioms Spydr.Verilog.Elab.c04_text_struct
+#print axioms Spydr.Verilog.Elab.exNet_struct
